@@ -17,7 +17,7 @@ for p in props:
             "evidence_file": f"evidence/{pid}.json",
             "replay_cmd_template": f"./check {pid} --replay {{path}}",
             "engine": "pyvc",
-            "level_claimed": {"category": "proof", "text": m["text"], "design_ref": m.get("design_ref", f"DESIGN.md section 4.{pid}")},
+            "level_claimed": {"category": m.get("category", "proof"), "text": m["text"], "design_ref": m.get("design_ref", f"DESIGN.md section 4.{pid}")},
             "level_note": m["note"],
             "technique": m.get("technique", "contracts on the real functions; VCs generated from the current source by symbolic execution; discharged by z3/cvc5"),
         })
